@@ -85,6 +85,13 @@ def gen_cases(tier, seed):
             cen = [cg.dyadic(line[k] * x / nrm, 16) for x in dirn]
             basis.append(cg.shell(rng, rng.choice([0, 0, 1, 2, 3]), K=rng.randint(1, 4), M=rng.randint(1, 2), lo=0.05, hi=500.0,
                                   bits=24, cen=cen))
+        if d % 4 == 1 and (d // 4) % 2 == 0:
+            # uncontracted s shells only (one primitive, one segment each): the simplest blocks of all, for which a closed
+            # formula is a tempting shortcut
+            for s_ in basis:
+                s_["l"] = 0
+                s_["exps"] = s_["exps"][:1]
+                s_["coeffs"] = [[cg.coeff(rng)]]
         if d % 4 == 3 and len(basis) >= 3:
             # shells 1 and 2 are placed 0.4 % inside and 0.4 % outside the documented cut-off distance to shell 0 for one of
             # the tolerances (1e-16 .. 0.5 in turn): a cut-off computed from a clipped tolerance, a rounded logarithm or a
